@@ -25,9 +25,13 @@ def parseRec : List String → Option Rec
     if ty == tRRSIG then
       pure { base with covered := ← nat? a, signer := parseDName b, labels := ← nat? c }
     else if ty == tDNSKEY then
-      pure { base with tag := ← nat? a, alg := ← nat? b, algSupp := c == "1" }
+      pure { base with tag := ← nat? a, alg := ← nat? b, algSupp := c == "1", digSupp := d == "1" }
     else if ty == tDS then
       pure { base with tag := ← nat? a, alg := ← nat? b, algSupp := c == "1", digSupp := d == "1" }
+    else if ty == tNSEC then
+      pure { base with tag := ← nat? a }
+    else if ty == tNSEC3 then
+      pure { base with tag := ← nat? a, alg := ← nat? b }
     else pure base
   | _ => none
 
@@ -111,7 +115,12 @@ def splitBar (ts : List String) : List (List String) :=
 def handle (toks : List String) : Option String := do
   match splitBar toks with
   | ("runx" :: _) :: _ => pure "~"  -- no model side: the implementation run without cache was abandoned
+  | ("runp" :: _) :: _ => pure "~"  -- no model side: verify_nsec / verify_nsec3 (a parameter of the model) panicked
+  | ["covers" :: _, [zk, hash, digest]] =>
+    let h : Option Bytes := if hash == "x" then none else parseHex hash
+    pure (showBool (dsCovers (zk == "1") h ((parseHex digest).getD [])))
   | ("hist" :: _) :: _ => pure "~"  -- histories on one handle: no model side (the model has no ValidationCache)
+  | ("entry" :: _) :: _ => pure "~"  -- other entry points / anchor configuration: judged by the harness oracle only
   | [["run", _hid, qname, qtype, _e, d, c, _faults], "U" :: n :: us, "T" :: _ :: ts] =>
     let depth ← (d.drop 1).toNat?
     let cd := c == "C1"
